@@ -188,6 +188,14 @@ class Check(PropertyCheck):
                 res.append(("ne", f"`{line}`: != is not the negation of =="))
             if (y == x) != eq:
                 res.append(("symmetry", f"`{line}`: a == b is {eq} but b == a is {y == x}"))
+            if eq:
+                # equal objects hash equally - for every kind that can be hashed at all
+                try:
+                    hx, hy = hash(x), hash(y)
+                except TypeError:
+                    hx = hy = None
+                if hx != hy:
+                    res.append(("hash", f"`{line}`: two equal {type(x).__name__} objects hash differently (one is not found in a set of the other)"))
             if not (x == x and y == y):
                 res.append(("reflexive", f"`{line}`: an object is not equal to itself"))
             x2 = copy.deepcopy(x)
